@@ -10,6 +10,7 @@ import (
 	"fmt"
 	"math/big"
 	"math/rand"
+	"time"
 
 	"github.com/ethereum/go-ethereum/common"
 	"github.com/ethereum/go-ethereum/core/rawdb"
@@ -25,6 +26,7 @@ import (
 
 type oracle struct {
 	headers map[[32]byte]*types.Header
+	slow    map[[32]byte]time.Duration // set before use: lookups of these headers take that long (a slower history peer)
 }
 
 func (o *oracle) GetHistoricalSummaries(epoch uint64) (capella.HistoricalSummaries, error) {
@@ -42,6 +44,9 @@ func (o *oracle) GetBlockHeaderByHash(hash []byte) (*types.Header, error) {
 	}
 	var k [32]byte
 	copy(k[:], hash)
+	if d := o.slow[k]; d > 0 {
+		time.Sleep(d)
+	}
 	h, ok := o.headers[k]
 	if !ok {
 		return nil, errors.New("header not found")
